@@ -60,6 +60,7 @@ or a value >= 2^32, or threads; distinct = distinct case hashes.",
     ],
     run,
     replay,
+    from_bytes: None,
 };
 
 struct RefTotals {
@@ -212,7 +213,7 @@ fn observe<const Z: usize, const G: usize, const E: usize, const RR: usize, cons
             }
             let words = bw.into_inner().unwrap().into_inner();
             if via == Via::WrapperRead {
-                let mut br = BufBitReader::<LE, _>::new(MemWordReader::new(&words[..]));
+                let mut br = BufBitReader::<LE, _>::new(MemWordReader::new_strict(&words[..]));
                 for &(v, c) in items {
                     for _ in 0..c {
                         let got = DynamicCodeRead::read(&w, &mut br).map_err(|e| Failure::new("wrapper/read", e.to_string()))?;
@@ -360,7 +361,7 @@ pub fn gen_case(s: &mut Src) -> Case {
 
 fn run(ctx: &Ctx, env: &Env) -> Stats {
     let mut jobs: Vec<Job> = vec![];
-    let n_rand = ctx.t(4_000u64, 150_000);
+    let n_rand = ctx.t(10_000u64, 300_000);
     for j in 0..16 {
         jobs.push(Box::new(move |ctx: &Ctx| {
             let mut part = Part::new(ctx, format!("random/{}", j), "proptest byte strings decoded into (multiset, split, combine, observation interface)", false);
@@ -387,7 +388,7 @@ fn run(ctx: &Ctx, env: &Env) -> Stats {
         let mut part = Part::new(ctx, "threads", "2..=16 threads sharing one wrapper, 10^4..10^6 updates in total", false);
         let f = |c: &Case| check_case(c, env);
         let mut r = vcore::grid::Rng::new(ctx.seed + 15);
-        for round in 0..ctx.t(12, 60) {
+        for round in 0..ctx.t(30, 150) {
             let threads = 2 + (round % 15) as u8;
             let n = ctx.t(400, 3000);
             let items: Vec<(u64, u32)> = (0..n).map(|_| (r.mag() >> 20, 1 + r.below(ctx.t(50, 300)) as u32)).collect();
